@@ -127,6 +127,33 @@ def judge(ctx, cases, metas, pid):
     return verdicts
 
 
+def run_fault_extension(ctx, n):
+    """Beyond the listed properties: a task that raises in its worker.  MC_PoolFail: for every interleaving the parent raises the exception of the
+    lowest-indexed failing task after consuming exactly the results before it, and it always surfaces (liveness).  The real pool is driven through
+    the same fault scenarios; a mismatch is reported as EXTENSION-MISMATCH (informational: no listed property speaks about worker failures)."""
+    cfg = 'SPECIFICATION Spec\nCONSTANTS\n  T = 4\n  W = 2\nINVARIANT PrefixBeforeFailure\nINVARIANT RaisesFirstFailing\nPROPERTY Surfaces\nVIEW FView\nCHECK_DEADLOCK FALSE\n'
+    res = tlc.must(tlc.run('MC_PoolFail', cfg, ctx.scratch, workers=4, timeout=900), 'MC_PoolFail')
+    ctx.add_tlc(res, 'extension.MC_PoolFail(T=4,W=2)')
+    if res['violated']:
+        raise tlc.TLCError('MC_PoolFail violates %s' % res['violated'])
+    rng = np.random.default_rng(ctx.seed + 111)
+    logdir = ctx.scratch.sub('poollogf')
+    outcomes = []
+    for k in range(n):
+        T = 4
+        failing = [[2], [1, 3], [4], [3, 4], [1]][k % 5]
+        order = tuple(int(x) + 1 for x in rng.permutation(T))
+        W = [2, 4][k % 2]
+        delays = pt.delays_for(order, W, rng) or [0.0] * T
+        r = pt.run_fault(pt.make_sigs(rng, (T,)), 64, (8, 12), pt.kw_variant(rng, k), W, delays, failing, logdir)
+        r['ok'] = r['raised'] == 'ValueError' and r['raised_task'] == min(failing) and r['returned'] == -1
+        outcomes.append(r)
+        if not r['ok']:
+            print('EXTENSION-MISMATCH pool task failure: %s' % r)
+    ctx.parts.append({'part': 'extension.pool_task_failure(real pool)', 'scenarios': len(outcomes), 'as_specified': sum(1 for r in outcomes if r['ok']),
+                      'sample': outcomes[0] if outcomes else None})
+
+
 def run(ctx):
     ctx.rule = ('MC: every interleaving of the pool for T tasks on W workers; RP/TV: every completion order TLC reaches (sampled when many) realised on the real pool '
                 '(non-trivial = workers actually completed out of submission order)')
@@ -134,9 +161,11 @@ def run(ctx):
     if ctx.quick:
         run_mc(ctx, 'C11', [(4, 2), (4, 4), (5, 3)])
         run_rp(ctx, [(3, 3), (3, 2), (4, 4), (4, 2)], 8)
+        run_fault_extension(ctx, 5)
     else:
         run_mc(ctx, 'C11', [(4, 2), (4, 4), (5, 3), (6, 3), (6, 6)])
         run_rp(ctx, [(3, 3), (3, 2), (4, 4), (4, 2), (4, 3), (5, 5), (5, 3), (5, 2)], 40)
+        run_fault_extension(ctx, 30)
 
 
 def replay(ctx, case):
